@@ -78,6 +78,7 @@ var ownCallerHolds = map[string]string{
 	"(*Conn).writeData":       "Conn.bwLck",
 	"(*Client).createConn":    "Client.lck",
 	"(*Conn).closeBodyStream": "Ctx.lck",
+	"(*Conn).readStreamOwned": "Ctx.lck",
 	"(*pendingBody).hasMore":  "Conn.sendLck",
 }
 
@@ -305,4 +306,134 @@ func (p *Prog) locksHeldAt(in ssa.Instruction) map[string]bool {
 		acc.Locks = map[string]bool{}
 	}
 	return acc.Locks
+}
+
+// ---------------------------------------------------------------- self-deadlock
+
+func init() {
+	register(&Rule{
+		Name: "no-self-deadlock", Props: []string{"C12", "C17", "C19"}, Engine: "OWN", Floor: 20,
+		Doc: "no function calls, while it holds one of the package's mutexes (directly, or through the Ctx acquire/acquireFor wrappers), a function that can acquire that same mutex again: sync.Mutex is not re-entrant, so the goroutine would wait for itself for ever (the read loop, and with it every request on the connection). Lock state at a call site is decided by dominance (a Lock that dominates the call with no dominating Unlock in between); what a callee may acquire is the transitive closure over the call graph",
+		Run: ruleNoSelfDeadlock,
+	})
+}
+
+func ruleNoSelfDeadlock(p *Prog, r *Out) {
+	// direct acquisitions per function
+	direct := map[*ssa.Function]map[string]bool{}
+	callees := map[*ssa.Function][]*ssa.Function{}
+	var fns []*ssa.Function
+	for _, f := range p.allFuncs() {
+		if f.Blocks == nil {
+			continue
+		}
+		fns = append(fns, f)
+		for _, b := range f.Blocks {
+			for _, x := range b.Instrs {
+				ci, ok := x.(ssa.CallInstruction)
+				if !ok {
+					continue
+				}
+				if _, isGo := x.(*ssa.Go); isGo {
+					continue
+				}
+				name := p.calleeName(ci.Common())
+				if name == "(*sync.Mutex).Lock" && len(ci.Common().Args) == 1 {
+					if mfa, ok := ci.Common().Args[0].(*ssa.FieldAddr); ok {
+						mo, mf := p.fieldAddrName(mfa)
+						if direct[f] == nil {
+							direct[f] = map[string]bool{}
+						}
+						direct[f][mo+"."+mf] = true
+					}
+					continue
+				}
+				if _, isDefer := x.(*ssa.Defer); isDefer {
+					continue
+				}
+				if ci.Common().IsInvoke() {
+					callees[f] = append(callees[f], p.implementersOf(ci.Common())...)
+				} else {
+					callees[f] = append(callees[f], p.calleesOf(ci)...)
+				}
+			}
+		}
+	}
+	// transitive closure
+	may := map[*ssa.Function]map[string]bool{}
+	for _, f := range fns {
+		may[f] = map[string]bool{}
+		for l := range direct[f] {
+			may[f][l] = true
+		}
+	}
+	for changed := true; changed; {
+		changed = false
+		for _, f := range fns {
+			for _, g := range callees[f] {
+				for l := range may[g] {
+					if !may[f][l] {
+						may[f][l] = true
+						changed = true
+					}
+				}
+			}
+		}
+	}
+	// a witness chain for the message
+	var chain func(g *ssa.Function, l string, depth int) string
+	chain = func(g *ssa.Function, l string, depth int) string {
+		if direct[g][l] || depth > 6 {
+			return p.fname(g)
+		}
+		for _, h := range callees[g] {
+			if may[h][l] {
+				return p.fname(g) + " -> " + chain(h, l, depth+1)
+			}
+		}
+		return p.fname(g)
+	}
+	sites := 0
+	for _, f := range fns {
+		for _, b := range f.Blocks {
+			for _, x := range b.Instrs {
+				ci, ok := x.(ssa.CallInstruction)
+				if !ok {
+					continue
+				}
+				if _, isGo := x.(*ssa.Go); isGo {
+					continue
+				}
+				if _, isDefer := x.(*ssa.Defer); isDefer {
+					continue
+				}
+				name := p.calleeName(ci.Common())
+				if strings.HasPrefix(name, "(*sync.") {
+					continue
+				}
+				held := p.locksHeldAt(x)
+				if len(held) == 0 {
+					continue
+				}
+				cands := p.calleesOf(ci)
+				if ci.Common().IsInvoke() {
+					cands = p.implementersOf(ci.Common())
+				}
+				for _, g := range cands {
+					if g.Blocks == nil {
+						continue
+					}
+					sites++
+					for l := range held {
+						key := fmt.Sprintf("%s calls %s holding %s", p.fname(f), p.fname(g), l)
+						r.check(!may[g][l], key, p.ipos(x), "callee does not take "+l,
+							fmt.Sprintf("%s calls %s while holding %s, and that call can take %s again (%s): the goroutine waits for a mutex it holds itself, for ever; on the client's read loop that stops every response on the connection and the RoundTrip that waits to take its context back never returns", p.fname(f), p.fname(g), l, l, chain(g, l, 0)))
+					}
+				}
+			}
+		}
+	}
+	if sites == 0 {
+		r.bad("calls under a lock", "?", "no call made while a mutex is held was found: the lock-state analysis has lost its anchors")
+	}
 }
